@@ -47,7 +47,7 @@ PROPS["C20"] = dict(module=check_hops, sizes={"quick": (60, 40), "thorough": (15
 
 import check_multi
 
-PROPS["C19"] = dict(module=check_multi, sizes={"quick": (40, (8, 40)), "thorough": (800, (8, 120))},
+PROPS["C19"] = dict(module=check_multi, sizes={"quick": (100, (8, 40)), "thorough": (800, (8, 120))},
                     coq_sample={"quick": 4, "thorough": 20})
 
 import check_gen
